@@ -214,6 +214,8 @@ func NewBloomSearchEngine(config BloomSearchEngineConfig, metaStore MetaStore, d
 
 	ctx, cancel := context.WithCancel(context.Background())
 	flushCtx, flushCancel := context.WithCancel(context.Background())
+	cancel = verifWrapCancel("ctx.cancel", cancel)
+	flushCancel = verifWrapCancel("flush.cancel", flushCancel)
 
 	return &BloomSearchEngine{
 		config:    config,
@@ -252,9 +254,11 @@ func (b *BloomSearchEngine) Start() {
 	defer b.stateMu.Unlock()
 
 	if b.started || b.stopped {
+		verifEvent("start.noop", 0, 0)
 		return
 	}
 	b.started = true
+	verifEvent("start", 0, 0)
 
 	b.wg.Add(2)
 	go b.ingestWorker()
@@ -281,10 +285,12 @@ func (b *BloomSearchEngine) Stop(ctx context.Context) error {
 	// the read lock on a full ingest buffer — so Stop can always honor its
 	// deadline. The AfterFunc is dropped on a graceful finish, leaving
 	// flushCtx live.
+	verifEvent("stop.begin", 0, 0)
 	stopAfter := context.AfterFunc(ctx, b.flushCancel)
 
 	b.stateMu.Lock()
 	b.stopped = true
+	verifEvent("stop.flag", 0, 0)
 	b.stateMu.Unlock()
 
 	// Signal workers to stop
@@ -297,12 +303,15 @@ func (b *BloomSearchEngine) Stop(ctx context.Context) error {
 		close(done)
 	}()
 
+	verifPause("stop.select", 0)
 	select {
 	case <-done:
+		verifEvent("stop.ret.nil", 0, 0)
 		// Workers finished gracefully
 		stopAfter()
 		return nil
 	case <-ctx.Done():
+		verifEvent("stop.ret.deadline", 0, 0)
 		// Timeout occurred
 		return fmt.Errorf("shutdown timeout exceeded: %w", ctx.Err())
 	}
